@@ -489,7 +489,7 @@ func run(c *lib.Ctx) error {
 		}
 	}
 	c.Set("runs_showing_the_known_pattern", npat)
-	skipped, err := drv.JudgeAll(c, dir, extra, items, c.Pick(3, 80), 5000, 6, "TraceInterruptName.cfg", func(it drv.Item, v *lib.TraceVerdict) {
+	skipped, err := drv.JudgeAll(c, dir, extra, items, c.Pick(3, 12), 5000, 4, "TraceInterruptName.cfg", func(it drv.Item, v *lib.TraceVerdict) {
 		reject(c, it, v)
 	})
 	if err != nil {
